@@ -169,7 +169,82 @@ def unit_state_rule(index, rep, rid, cls_q, entry, user_q):
     return n
 
 
+def probe_insert_rule(index, rep, rid, modules):
+    """A key chosen by a uniqueness loop `while K in self.D:` must be the key inserted: every
+    definition of K that can reach `self.D[K] = ...` passes the probe."""
+    n = 0
+    for m in modules:
+        for fi in index.functions_in_module(m):
+            loops = [w for w in walk_no_nested(fi.node) if isinstance(w, ast.While) and isinstance(w.test, ast.Compare) and len(w.test.ops) == 1 and isinstance(w.test.ops[0], ast.In)
+                     and isinstance(w.test.left, ast.Name) and isinstance(w.test.comparators[0], ast.Attribute) and norm(w.test.comparators[0].value) == "self"]
+            if not loops:
+                continue
+            cfg = cfg_of(fi)
+            for w in loops:
+                key, dct = w.test.left.id, norm(w.test.comparators[0])
+                probes = {t.id for t in cfg.nodes if t.kind == "test" and t.stmt is w}
+                stores = [x for x in cfg.nodes if x.kind == "stmt" and isinstance(x.ast, ast.Assign) and isinstance(x.ast.targets[0], ast.Subscript)
+                          and norm(x.ast.targets[0].value) == dct]
+                for st in stores:
+                    n += 1
+                    k = st.ast.targets[0].slice
+                    if not (isinstance(k, ast.Name) and k.id == key):
+                        rep.check(False, rid, fi.qualname, "inserted key `%s` is not the probed `%s`" % (norm(k), key), fn_where(fi, st.stmt), "",
+                                  "%s probes `%s in %s` but inserts under `%s`: the uniqueness loop checks a different key from the one it stores" % (fi.qualname, key, dct, norm(k)))
+                        continue
+                    defs = [d for d in cfg.nodes if d.kind == "stmt" and isinstance(d.ast, ast.Assign) and any(isinstance(t, ast.Name) and t.id == key for t in d.ast.targets)]
+                    bad = [d for d in defs if cfg.can_reach(d, lambda x, st=st: x is st, avoid=lambda x: x.id in probes, follow_exc=False) is not None]
+                    rep.check(not bad, rid, fi.qualname, "key re-defined between the uniqueness probe and the insertion: %s" % (norm_stmt(bad[0].stmt)[:60] if bad else ""), fn_where(fi, bad[0].stmt if bad else st.stmt),
+                              "%s: every definition of `%s` passes `%s in %s` before `%s[%s] = ...`" % (fi.name, key, key, dct, dct, key),
+                              "%s computes `%s` by `%s` AFTER the loop `while %s in %s` has approved it, and inserts the new value: the key that was checked for uniqueness is not the key that is stored, so two blocks can end up with the same title (and every LINK to it is ambiguous on re-reading)" % (fi.qualname, key, norm_stmt(bad[0].stmt)[:80] if bad else "", key, dct))
+    return n
+
+
+def matrix_read_rule(index, rep, rid, modules):
+    """CharacterMatrix.__getitem__ creates (and stores) an empty sequence for a taxon that has none: a
+    writer may subscript the matrix only with taxa known to have a sequence."""
+    n = 0
+    for m in modules:
+        for fi in index.functions_in_module(m):
+            mats = [p for p in fi.all_params if "matrix" in p]
+            if not mats:
+                continue
+            reads = [x for x in walk_no_nested(fi.node) if isinstance(x, ast.Subscript) and isinstance(x.ctx, ast.Load) and isinstance(x.value, ast.Name) and x.value.id in mats
+                     and isinstance(x.slice, ast.Name)]
+            if not reads:
+                continue
+            pm = parent_map(fi.node)
+            cfg = None
+            for x in reads:
+                n += 1
+                mat, key = x.value.id, x.slice.id
+                ok = False
+                p = pm.get(x)
+                while p is not None and p is not fi.node:
+                    if isinstance(p, ast.For) and norm(p.target) == key and norm(p.iter) == mat:
+                        ok = True
+                    p = pm.get(p)
+                if not ok:
+                    cfg = cfg or cfg_of(fi)
+                    xn = node_of_ast(cfg, x)
+                    tests = [t for t in cfg.nodes if t.kind == "test" and isinstance(t.ast, ast.Compare) and len(t.ast.ops) == 1 and isinstance(t.ast.ops[0], (ast.In, ast.NotIn))
+                             and norm(t.ast.left) == key and norm(t.ast.comparators[0]) == mat]
+                    if xn is not None and tests:
+                        blocked = {(t.id, "t" if isinstance(t.ast.ops[0], ast.In) else "f") for t in tests}
+                        reach = cfg.reach([cfg.entry], follow_exc=False, edge_ok=lambda s_, l, d: (s_.id, l) not in blocked)
+                        ok = all(r is not xn for r in reach)
+                rep.check(ok, rid, fi.qualname, "matrix subscripted with a taxon not known to have a sequence: %s" % norm(x), fn_where(fi, x), "%s: `%s` is read only for taxa that have a sequence" % (fi.name, norm(x)),
+                          "%s reads `%s` for a taxon that was neither obtained by iterating the matrix nor tested with `%s in %s`: CharacterMatrix.__getitem__ CREATES and stores an empty sequence for a taxon without one, so merely writing the matrix adds rows to it and a second conversion of the same object no longer yields the original content" % (fi.qualname, norm(x), key, mat))
+    return n
+
+
 def run(index, rep, tier):
+    rep.rule("R09.8", "NEXUS block titles: the key approved by the uniqueness loop `while title in self._title_block_map` is the key inserted (no re-definition between probe and insertion)")
+    with rep.section("R09.8"):
+        rep.floor("R09.8", "uniqueness-probe/insert sites in the NEXUS writer", 1, probe_insert_rule(index, rep, "R09.8", ["dendropy.dataio.nexuswriter"]))
+    rep.rule("R09.9", "writers do not grow the matrix they write: a CharacterMatrix is subscripted only with taxa obtained by iterating it or tested for membership (its __getitem__ auto-creates rows)")
+    with rep.section("R09.9"):
+        rep.floor("R09.9", "matrix[taxon] reads in the writers", 5, matrix_read_rule(index, rep, "R09.9", ["dendropy.dataio.nexuswriter", "dendropy.dataio.phylipwriter", "dendropy.dataio.fastawriter", "dendropy.dataio.nexmlwriter"]))
     rep.rule("R09.7", "per-matrix parser state: every accumulator field the NeXML characters parser fills while reading one matrix is re-initialised at the start of the next (the parser object is reused across matrices)")
     nacc = unit_state_rule(index, rep, "R09.7", NXR + "._NexmlCharBlockParser", "parse_char_matrix", NXR + ".NexmlReader._parse_char_matrices")
     rep.floor("R09.7", "accumulator fields of the NeXML characters parser", 5, nacc)
@@ -181,140 +256,146 @@ def run(index, rep, tier):
     rep.rule("R09.6", "data-type tables: reader-producible data types are keys of data_type_matrix_map; the NeXML writer's xsi:type values are dispatched by the reader")
 
     # ---- R09.1
-    emitted = {}
-    for name in WRITER_FUNCS:
-        fi = index.function(XW + "." + name)
-        for n in ast.walk(fi.node):
-            if isinstance(n, ast.Constant) and isinstance(n.value, str):
-                for w in re.findall(r"(?<![A-Za-z_{%])([A-Za-z]{3,})(?![a-z_}])", n.value):
-                    if w.isupper() or w in ("Translate", "charset"):
-                        emitted.setdefault(w.upper(), (fi, n))
-    rep.floor("R09.1", "keywords emitted by NexusWriter", 25, len(emitted))
-    known = set()
-    for modname in ("dendropy.dataio.nexusreader", "dendropy.dataio.nexusyielder"):
-        for fi in index.functions_in_module(modname):
+    with rep.section("R09.1"):
+        emitted = {}
+        for name in WRITER_FUNCS:
+            fi = index.function(XW + "." + name)
             for n in ast.walk(fi.node):
-                if isinstance(n, ast.Compare):
-                    for c in [n.left] + list(n.comparators):
-                        if isinstance(c, ast.Constant) and isinstance(c.value, str):
-                            known.add(c.value.upper().lstrip("#"))
-                        elif isinstance(c, (ast.List, ast.Tuple, ast.Set)):
-                            known |= {e.value.upper() for e in c.elts if isinstance(e, ast.Constant) and isinstance(e.value, str)}
-    rep.floor("R09.1", "keywords the NEXUS reader compares tokens with", 30, len(known))
-    for w, (fi, node) in sorted(emitted.items()):
-        if w in KEYWORD_EXEMPT:
-            rep.ob("R09.1", fn_where(fi, node), "keyword %s: exempt - %s" % (w, KEYWORD_EXEMPT[w]), True, nontrivial=False)
-            continue
-        rep.check(w in known, "R09.1", fi.qualname, "keyword %s has no reader branch" % w, fn_where(fi, node), "keyword %s emitted by %s is compared by the reader" % (w, fi.name),
-                  "NexusWriter.%s emits the keyword %s but no branch of the NEXUS reader compares a token with it: that part of the FORMAT/statement is skipped on re-reading" % (fi.name, w))
-    # %-formatting a set/dict into the output
-    cf = index.function(XW + "._compose_format_terms")
-    setvars = {norm(n.targets[0]) for n in walk_no_nested(cf.node) if isinstance(n, ast.Assign) and isinstance(n.value, ast.Call) and call_name(n.value) in ("set", "dict", "list")
-               and not n.value.args}
-    for n in walk_no_nested(cf.node):
-        if isinstance(n, ast.BinOp) and isinstance(n.op, ast.Mod) and isinstance(n.left, ast.Constant) and isinstance(n.left.value, str) and isinstance(n.right, ast.Name) and n.right.id in setvars:
-            rep.check(False, "R09.1", cf.qualname, "container formatted with %%s: %s" % norm(n)[:60], fn_where(cf, n), "container repr written into FORMAT",
-                      "_compose_format_terms formats the container `%s` directly with %%s (`%s`): the Python repr of a set ends up in the FORMAT statement" % (n.right.id, norm(n)[:60]))
+                if isinstance(n, ast.Constant) and isinstance(n.value, str):
+                    for w in re.findall(r"(?<![A-Za-z_{%])([A-Za-z]{3,})(?![a-z_}])", n.value):
+                        if w.isupper() or w in ("Translate", "charset"):
+                            emitted.setdefault(w.upper(), (fi, n))
+        rep.floor("R09.1", "keywords emitted by NexusWriter", 25, len(emitted))
+        known = set()
+        for modname in ("dendropy.dataio.nexusreader", "dendropy.dataio.nexusyielder"):
+            for fi in index.functions_in_module(modname):
+                for n in ast.walk(fi.node):
+                    if isinstance(n, ast.Compare):
+                        for c in [n.left] + list(n.comparators):
+                            if isinstance(c, ast.Constant) and isinstance(c.value, str):
+                                known.add(c.value.upper().lstrip("#"))
+                            elif isinstance(c, (ast.List, ast.Tuple, ast.Set)):
+                                known |= {e.value.upper() for e in c.elts if isinstance(e, ast.Constant) and isinstance(e.value, str)}
+        rep.floor("R09.1", "keywords the NEXUS reader compares tokens with", 30, len(known))
+        for w, (fi, node) in sorted(emitted.items()):
+            if w in KEYWORD_EXEMPT:
+                rep.ob("R09.1", fn_where(fi, node), "keyword %s: exempt - %s" % (w, KEYWORD_EXEMPT[w]), True, nontrivial=False)
+                continue
+            rep.check(w in known, "R09.1", fi.qualname, "keyword %s has no reader branch" % w, fn_where(fi, node), "keyword %s emitted by %s is compared by the reader" % (w, fi.name),
+                      "NexusWriter.%s emits the keyword %s but no branch of the NEXUS reader compares a token with it: that part of the FORMAT/statement is skipped on re-reading" % (fi.name, w))
+        # %-formatting a set/dict into the output
+        cf = index.function(XW + "._compose_format_terms")
+        setvars = {norm(n.targets[0]) for n in walk_no_nested(cf.node) if isinstance(n, ast.Assign) and isinstance(n.value, ast.Call) and call_name(n.value) in ("set", "dict", "list")
+                   and not n.value.args}
+        for n in walk_no_nested(cf.node):
+            if isinstance(n, ast.BinOp) and isinstance(n.op, ast.Mod) and isinstance(n.left, ast.Constant) and isinstance(n.left.value, str) and isinstance(n.right, ast.Name) and n.right.id in setvars:
+                rep.check(False, "R09.1", cf.qualname, "container formatted with %%s: %s" % norm(n)[:60], fn_where(cf, n), "container repr written into FORMAT",
+                          "_compose_format_terms formats the container `%s` directly with %%s (`%s`): the Python repr of a set ends up in the FORMAT statement" % (n.right.id, norm(n)[:60]))
 
     # ---- R09.2
-    c02.protect_rule(index, rep, "R09.2", ("dendropy.dataio.nexuswriter",), 7)
+    with rep.section("R09.2"):
+        c02.protect_rule(index, rep, "R09.2", ("dendropy.dataio.nexuswriter",), 7)
 
     # ---- R09.3
-    n = polarity_rule(index, rep, "R09.3")
-    rep.floor("R09.3", "suppress-flag gated branches", 15, n)
+    with rep.section("R09.3"):
+        n = polarity_rule(index, rep, "R09.3")
+        rep.floor("R09.3", "suppress-flag gated branches", 15, n)
 
     # ---- R09.4
-    ws = index.function(NXW + "._write_format_section")
-    minters = {}
-    for m in index.methods_of(NXW):
-        for c in calls_in(m.node):
-            if call_name(c) == "_get_nexml_id" and c.args and isinstance(c.args[0], ast.Call) and call_name(c.args[0]) == "object":
-                minters[m.name] = m
-    rep.floor("R09.4", "NeXML writer methods that can mint a fresh <char> id", 2, len(minters))
-    taxon_loops = [f for f in walk_no_nested(ws.node) if isinstance(f, ast.For) and norm(f.iter) == "char_matrix"]
-    if not taxon_loops:
-        raise AnalysisError("R09.4: per-taxon loop in _write_format_section not recognised")
-    tl = taxon_loops[0]
-    tvars = names_in(tl.target)
-    ncall = 0
-    for c in ast.walk(tl):
-        if isinstance(c, ast.Call) and call_name(c) in minters:
-            ncall += 1
-            v = get_kwarg(c, "char_type_id")
-            ok = False
-            why = "no char_type_id is passed, so a fresh id is minted for every cell"
-            if v is not None and not is_none(v):
-                defs = [d for d in ast.walk(tl) if isinstance(d, ast.Assign) and norm(d.targets[0]) == norm(v)]
-                keyed = []
-                for d in defs:
-                    val = d.value
-                    key = None
-                    if isinstance(val, ast.Call) and call_name(val) in ("get", "setdefault") and val.args:
-                        key = val.args[0]
-                    elif isinstance(val, ast.Subscript):
-                        key = val.slice
-                    keyed.append(key)
-                ok = bool(keyed) and all(k is not None and not (names_in(k) & tvars) for k in keyed)
-                why = "the id passed (`%s`) is not looked up by a key independent of the taxon" % norm(v)
-            rep.check(ok, "R09.4", ws.qualname, "per-cell id minted via %s" % call_name(c), fn_where(ws, c),
-                      "_write_format_section: %s(...) inside the per-taxon loop receives a column-keyed char_type_id" % call_name(c),
-                      "_write_format_section calls %s inside the per-taxon loop and %s: cells of the same column in different rows get different <char> ids and the matrix reads back with later rows shifted by None padding" % (call_name(c), why))
-    rep.floor("R09.4", "calls to id-minting composers in the per-taxon loop", 2, ncall)
+    with rep.section("R09.4"):
+        ws = index.function(NXW + "._write_format_section")
+        minters = {}
+        for m in index.methods_of(NXW):
+            for c in calls_in(m.node):
+                if call_name(c) == "_get_nexml_id" and c.args and isinstance(c.args[0], ast.Call) and call_name(c.args[0]) == "object":
+                    minters[m.name] = m
+        rep.floor("R09.4", "NeXML writer methods that can mint a fresh <char> id", 2, len(minters))
+        taxon_loops = [f for f in walk_no_nested(ws.node) if isinstance(f, ast.For) and norm(f.iter) == "char_matrix"]
+        if not taxon_loops:
+            raise AnalysisError("R09.4: per-taxon loop in _write_format_section not recognised")
+        tl = taxon_loops[0]
+        tvars = names_in(tl.target)
+        ncall = 0
+        for c in ast.walk(tl):
+            if isinstance(c, ast.Call) and call_name(c) in minters:
+                ncall += 1
+                v = get_kwarg(c, "char_type_id")
+                ok = False
+                why = "no char_type_id is passed, so a fresh id is minted for every cell"
+                if v is not None and not is_none(v):
+                    defs = [d for d in ast.walk(tl) if isinstance(d, ast.Assign) and norm(d.targets[0]) == norm(v)]
+                    keyed = []
+                    for d in defs:
+                        val = d.value
+                        key = None
+                        if isinstance(val, ast.Call) and call_name(val) in ("get", "setdefault") and val.args:
+                            key = val.args[0]
+                        elif isinstance(val, ast.Subscript):
+                            key = val.slice
+                        keyed.append(key)
+                    ok = bool(keyed) and all(k is not None and not (names_in(k) & tvars) for k in keyed)
+                    why = "the id passed (`%s`) is not looked up by a key independent of the taxon" % norm(v)
+                rep.check(ok, "R09.4", ws.qualname, "per-cell id minted via %s" % call_name(c), fn_where(ws, c),
+                          "_write_format_section: %s(...) inside the per-taxon loop receives a column-keyed char_type_id" % call_name(c),
+                          "_write_format_section calls %s inside the per-taxon loop and %s: cells of the same column in different rows get different <char> ids and the matrix reads back with later rows shifted by None padding" % (call_name(c), why))
+        rep.floor("R09.4", "calls to id-minting composers in the per-taxon loop", 2, ncall)
 
     # ---- R09.5
-    rtags = reader_tags(index)
-    pairs = [
-        ("_write_char_matrix", [NXR + "._NexmlCharBlockParser.parse_char_matrix"], {"id": "identifier only; rows/blocks are not referenced by id"}),
-        ("_compose_state_definition", [NXR + "._NexmlCharBlockParser.parse_state_alphabet", NXR + "._NexmlCharBlockParser.parse_ambiguous_state",
-                                       NXR + "._NexmlCharBlockParser.parse_polymorphic_state", NXR + "._NexmlCharBlockParser.parse_characters_format"], {}),
-        ("_write_format_section", [NXR + "._NexmlCharBlockParser.parse_characters_format", NXR + "._NexmlCharBlockParser.parse_state_alphabet"], {}),
-        ("_compose_char_type_xml_for_state_alphabet", [NXR + "._NexmlCharBlockParser.parse_characters_format"], {}),
-        ("_compose_char_type_xml_for_continuous_type", [NXR + "._NexmlCharBlockParser.parse_characters_format"], {}),
-    ]
-    nattr = 0
-    for wname, rnames, exempt in pairs:
-        wfi = index.function(NXW + "." + wname)
-        tags, attrs, values = written_vocab(wfi)
-        rattrs = set()
-        for rn in rnames:
-            rattrs |= read_attrs(index.function(rn))
-        for t in sorted(tags):
-            rep.check(t in rtags, "R09.5", wfi.qualname, "tag <%s> not looked up by the reader" % t, fn_where(wfi), "tag <%s> written by %s is looked up by the reader" % (t, wname),
-                      "NexmlWriter.%s writes the element <%s>, which the NeXML reader never looks up" % (wname, t))
-        for a in sorted(attrs):
-            nattr += 1
-            if a in exempt:
-                rep.ob("R09.5", fn_where(wfi), "attribute %s in %s: exempt - %s" % (a, wname, exempt[a]), True, nontrivial=False)
-                continue
-            rep.check(a in rattrs, "R09.5", wfi.qualname, "attribute %s not read back" % a, fn_where(wfi), "attribute %s written by %s is read back" % (a, wname),
-                      "NexmlWriter.%s writes the attribute `%s` but the reader functions %s read only %s" % (wname, a, [r.rsplit(".", 1)[1] for r in rnames], sorted(rattrs)))
-    rep.floor("R09.5", "attributes written for characters-side NeXML elements", 12, nattr)
+    with rep.section("R09.5"):
+        rtags = reader_tags(index)
+        pairs = [
+            ("_write_char_matrix", [NXR + "._NexmlCharBlockParser.parse_char_matrix"], {"id": "identifier only; rows/blocks are not referenced by id"}),
+            ("_compose_state_definition", [NXR + "._NexmlCharBlockParser.parse_state_alphabet", NXR + "._NexmlCharBlockParser.parse_ambiguous_state",
+                                           NXR + "._NexmlCharBlockParser.parse_polymorphic_state", NXR + "._NexmlCharBlockParser.parse_characters_format"], {}),
+            ("_write_format_section", [NXR + "._NexmlCharBlockParser.parse_characters_format", NXR + "._NexmlCharBlockParser.parse_state_alphabet"], {}),
+            ("_compose_char_type_xml_for_state_alphabet", [NXR + "._NexmlCharBlockParser.parse_characters_format"], {}),
+            ("_compose_char_type_xml_for_continuous_type", [NXR + "._NexmlCharBlockParser.parse_characters_format"], {}),
+        ]
+        nattr = 0
+        for wname, rnames, exempt in pairs:
+            wfi = index.function(NXW + "." + wname)
+            tags, attrs, values = written_vocab(wfi)
+            rattrs = set()
+            for rn in rnames:
+                rattrs |= read_attrs(index.function(rn))
+            for t in sorted(tags):
+                rep.check(t in rtags, "R09.5", wfi.qualname, "tag <%s> not looked up by the reader" % t, fn_where(wfi), "tag <%s> written by %s is looked up by the reader" % (t, wname),
+                          "NexmlWriter.%s writes the element <%s>, which the NeXML reader never looks up" % (wname, t))
+            for a in sorted(attrs):
+                nattr += 1
+                if a in exempt:
+                    rep.ob("R09.5", fn_where(wfi), "attribute %s in %s: exempt - %s" % (a, wname, exempt[a]), True, nontrivial=False)
+                    continue
+                rep.check(a in rattrs, "R09.5", wfi.qualname, "attribute %s not read back" % a, fn_where(wfi), "attribute %s written by %s is read back" % (a, wname),
+                          "NexmlWriter.%s writes the attribute `%s` but the reader functions %s read only %s" % (wname, a, [r.rsplit(".", 1)[1] for r in rnames], sorted(rattrs)))
+        rep.floor("R09.5", "attributes written for characters-side NeXML elements", 12, nattr)
 
     # ---- R09.6
-    cm = index.module("dendropy.datamodel.charmatrixmodel")
-    tbl = cm.assigns.get("data_type_matrix_map")
-    if not isinstance(tbl, ast.Dict):
-        raise AnalysisError("R09.6: data_type_matrix_map is not a dict literal")
-    keys = {const_value(k) for k in tbl.keys}
-    produced = {}
-    for q in (XR + "._parse_format_statement", XR + "._parse_characters_data_block", NXR + "._NexmlCharBlockParser.parse_char_matrix"):
-        fi = index.function(q)
-        for n in walk_no_nested(fi.node):
-            if isinstance(n, ast.Assign) and "data_type" in norm(n.targets[0]) and isinstance(n.value, ast.Constant) and isinstance(n.value.value, str):
-                produced.setdefault(n.value.value, (fi, n))
-    rep.floor("R09.6", "data types the readers can produce", 7, len(produced))
-    for dt, (fi, node) in sorted(produced.items()):
-        rep.check(dt in keys, "R09.6", fi.qualname, "data type %r" % dt, fn_where(fi, node), "reader data type %r is a key of data_type_matrix_map" % dt,
-                  "%s produces the data type %r, for which data_type_matrix_map has no matrix class (keys: %s)" % (fi.qualname, dt, sorted(keys)))
-    wcm = index.function(NXW + "._write_char_matrix")
-    wtypes = {m.group(1) for n in ast.walk(wcm.node) if isinstance(n, ast.Constant) and isinstance(n.value, str) for m in [re.match(r"^nex:([A-Za-z]+)$", n.value)] if m}
-    markups = {n.value for n in ast.walk(wcm.node) if isinstance(n, ast.Constant) and n.value in ("Seqs", "Cells")}
-    pcm = index.function(NXR + "._NexmlCharBlockParser.parse_char_matrix")
-    rtypes = {const_value(c.args[0]) for c in calls_in(pcm.node) if call_name(c) == "startswith" and c.args}
-    rmark = {const_value(c.args[0]) for c in calls_in(pcm.node) if call_name(c) == "endswith" and c.args}
-    rep.floor("R09.6", "xsi:type values written", 6, len(wtypes))
-    for t in sorted(wtypes):
-        rep.check(any(t.startswith(rt) for rt in rtypes if rt), "R09.6", wcm.qualname, "xsi:type nex:%s*" % t, fn_where(wcm), "xsi:type nex:%s* is dispatched by the reader" % t,
-                  "the NeXML writer marks a matrix as nex:%s... but the reader dispatches only on %s" % (t, sorted(x for x in rtypes if x)))
-    rep.check("Seqs" in markups and "Seqs" in rmark and "Cells" in markups, "R09.6", wcm.qualname, "markup suffixes %s / reader %s" % (sorted(markups), sorted(x for x in rmark if x)), fn_where(wcm),
-              "markup suffixes Seqs/Cells agree (reader treats non-Seqs as Cells)", "the Seqs/Cells markup suffixes of writer and reader disagree")
+    with rep.section("R09.6"):
+        cm = index.module("dendropy.datamodel.charmatrixmodel")
+        tbl = cm.assigns.get("data_type_matrix_map")
+        if not isinstance(tbl, ast.Dict):
+            raise AnalysisError("R09.6: data_type_matrix_map is not a dict literal")
+        keys = {const_value(k) for k in tbl.keys}
+        produced = {}
+        for q in (XR + "._parse_format_statement", XR + "._parse_characters_data_block", NXR + "._NexmlCharBlockParser.parse_char_matrix"):
+            fi = index.function(q)
+            for n in walk_no_nested(fi.node):
+                if isinstance(n, ast.Assign) and "data_type" in norm(n.targets[0]) and isinstance(n.value, ast.Constant) and isinstance(n.value.value, str):
+                    produced.setdefault(n.value.value, (fi, n))
+        rep.floor("R09.6", "data types the readers can produce", 7, len(produced))
+        for dt, (fi, node) in sorted(produced.items()):
+            rep.check(dt in keys, "R09.6", fi.qualname, "data type %r" % dt, fn_where(fi, node), "reader data type %r is a key of data_type_matrix_map" % dt,
+                      "%s produces the data type %r, for which data_type_matrix_map has no matrix class (keys: %s)" % (fi.qualname, dt, sorted(keys)))
+        wcm = index.function(NXW + "._write_char_matrix")
+        wtypes = {m.group(1) for n in ast.walk(wcm.node) if isinstance(n, ast.Constant) and isinstance(n.value, str) for m in [re.match(r"^nex:([A-Za-z]+)$", n.value)] if m}
+        markups = {n.value for n in ast.walk(wcm.node) if isinstance(n, ast.Constant) and n.value in ("Seqs", "Cells")}
+        pcm = index.function(NXR + "._NexmlCharBlockParser.parse_char_matrix")
+        rtypes = {const_value(c.args[0]) for c in calls_in(pcm.node) if call_name(c) == "startswith" and c.args}
+        rmark = {const_value(c.args[0]) for c in calls_in(pcm.node) if call_name(c) == "endswith" and c.args}
+        rep.floor("R09.6", "xsi:type values written", 6, len(wtypes))
+        for t in sorted(wtypes):
+            rep.check(any(t.startswith(rt) for rt in rtypes if rt), "R09.6", wcm.qualname, "xsi:type nex:%s*" % t, fn_where(wcm), "xsi:type nex:%s* is dispatched by the reader" % t,
+                      "the NeXML writer marks a matrix as nex:%s... but the reader dispatches only on %s" % (t, sorted(x for x in rtypes if x)))
+        rep.check("Seqs" in markups and "Seqs" in rmark and "Cells" in markups, "R09.6", wcm.qualname, "markup suffixes %s / reader %s" % (sorted(markups), sorted(x for x in rmark if x)), fn_where(wcm),
+                  "markup suffixes Seqs/Cells agree (reader treats non-Seqs as Cells)", "the Seqs/Cells markup suffixes of writer and reader disagree")
